@@ -209,6 +209,9 @@ def install(I):
     def _dict(ex, a, k):
         if not a:
             return ex.alloc(HDict(dict(k)))
+        src = a[0]
+        if isinstance(src, VRef) and isinstance(ex.heap[src.addr], (HSymDict, HDict)):
+            return ex.alloc(ex.heap[src.addr].clone())
         raise Undecided('dict(x)')
 
     @reg('set')
